@@ -5,7 +5,7 @@ import Cppcms.C09.Steps
 namespace Cppcms.C09
 open Cppcms Cppcms.C07
 
-theorem inv_step {s₀ : State} {c c' : Config} {t : Nat} (h : Inv s₀ c) (hs : stepThread c t = some c') :
+theorem inv_step {s₀ : XState} {c c' : Config} {t : Nat} (h : Inv s₀ c) (hs : stepThread c t = some c') :
     Inv s₀ c' := by
   unfold stepThread at hs
   cases hth : c.threads[t]? with
@@ -39,12 +39,12 @@ theorem inv_step {s₀ : State} {c c' : Config} {t : Nat} (h : Inv s₀ c) (hs :
       simp only [hth, hc, hcode, Option.some.injEq] at hs
       subst hs
       have hinvlt : th.inv < c.clock := tok.inv_lt (by rw [hc]; simp)
-      cases hlk : alookup k c.s.primary with
+      cases hlk : alookup k c.s.cache.primary with
       | none =>
         rw [execAct_lookup_none hlk]
         refine inv_lin h hth hc rfl rfl rfl hn ?_ (fun a ha => ha) (fun j thj _ _ => Or.inl (by rw [step_fetch_none hlk]))
-        refine .rel1 _ .shared .miss hc (by simp [hheld]) hheld rfl ?_
-        have := Lind_hook (c := c) (t := t) (op := .fetch now k) hinvlt
+        refine .rel1 _ .shared (.cache .miss) hc (by simp [hheld]) hheld rfl ?_
+        have := Lind_hook (c := c) (t := t) (op := .cache (.fetch now k)) hinvlt
         rw [step_fetch_none hlk] at this
         exact this
       | some cont =>
@@ -52,8 +52,8 @@ theorem inv_step {s₀ : State} {c c' : Config} {t : Nat} (h : Inv s₀ c) (hs :
         | true =>
           rw [execAct_lookup_expired hlk hex]
           refine inv_lin h hth hc rfl rfl rfl hn ?_ (fun a ha => ha) (fun j thj _ _ => Or.inl (by rw [step_fetch_expired hlk hex]))
-          refine .rel1 _ .shared .miss hc (by simp [hheld]) hheld rfl ?_
-          have := Lind_hook (c := c) (t := t) (op := .fetch now k) hinvlt
+          refine .rel1 _ .shared (.cache .miss) hc (by simp [hheld]) hheld rfl ?_
+          have := Lind_hook (c := c) (t := t) (op := .cache (.fetch now k)) hinvlt
           rw [step_fetch_expired hlk hex] at this
           exact this
         | false =>
@@ -79,7 +79,7 @@ theorem inv_step {s₀ : State} {c c' : Config} {t : Nat} (h : Inv s₀ c) (hs :
       rw [execAct_splice hp hlk hex]
       refine inv_lin h hth hc rfl rfl rfl hn ?_ (fun a ha => ha) (fun j thj _ _ => Or.inl (by rw [step_fetch_live hlk hex]))
       refine .f4 now k _ hc rfl hheld hp ⟨cont, by rw [step_fetch_live hlk hex]; exact hlk, hex, rfl⟩ ?_
-      have := Lind_hook (c := c) (t := t) (op := .fetch now k) hinvlt
+      have := Lind_hook (c := c) (t := t) (op := .cache (.fetch now k)) hinvlt
       rw [step_fetch_live hlk hex] at this
       exact this
     | f4 now k out hc hcode hheld hp hl hlin =>
@@ -139,7 +139,7 @@ end Cppcms.C09
 namespace Cppcms.C09
 open Cppcms Cppcms.C07
 
-theorem inv_init (s₀ : State) (progs : List (List Op)) : Inv s₀ (Config.init s₀ progs) := by
+theorem inv_init (s₀ : XState) (progs : List (List XOp)) : Inv s₀ (Config.init s₀ progs) := by
   have hget : ∀ (t : Nat) (th : Thread), (Config.init s₀ progs).threads[t]? = some th →
       th.cur = none ∧ th.code = [] ∧ th.held = [] ∧ th.done = [] := by
     intro t th h
@@ -162,18 +162,18 @@ theorem inv_init (s₀ : State) (progs : List (List Op)) : Inv s₀ (Config.init
     cases ha
   · intro e he; cases he
 
-theorem inv_sched1 {s₀ : State} {c : Config} (h : Inv s₀ c) (t : Nat) : Inv s₀ (sched1 c t) := by
+theorem inv_sched1 {s₀ : XState} {c : Config} (h : Inv s₀ c) (t : Nat) : Inv s₀ (sched1 c t) := by
   unfold sched1
   cases hs : stepThread c t with
   | none => exact h
   | some c' => exact inv_step h hs
 
-theorem inv_run {s₀ : State} {c : Config} (h : Inv s₀ c) (sched : List Nat) : Inv s₀ (run c sched) := by
+theorem inv_run {s₀ : XState} {c : Config} (h : Inv s₀ c) (sched : List Nat) : Inv s₀ (run c sched) := by
   induction sched generalizing c with
   | nil => exact h
   | cons t ts ih => exact ih (inv_sched1 h t)
 
-theorem inv_reachable (s₀ : State) (progs : List (List Op)) (sched : List Nat) :
+theorem inv_reachable (s₀ : XState) (progs : List (List XOp)) (sched : List Nat) :
     Inv s₀ (run (Config.init s₀ progs) sched) := inv_run (inv_init s₀ progs) sched
 
 end Cppcms.C09
